@@ -170,14 +170,23 @@ CLAUSE_BUILDERS = {"calc": "_build_calc_structure", "keep": "_build_keep_structu
 CLAUSE_VALIDATORS = {"calc": "vtlengine.Operators.Clause.Calc", "keep": "vtlengine.Operators.Clause.Keep", "drop": "vtlengine.Operators.Clause.Drop", "rename": "vtlengine.Operators.Clause.Rename", "sub": "vtlengine.Operators.Clause.Sub"}
 
 
-def clause_visitor(M: Model, op: str, ds: MDS, names: List[str], renames: Optional[List[Tuple[str, str]]] = None) -> Tuple[str, Any]:
+def _calc_children(names: List[str], role_token: Optional[str]) -> List[Any]:
+    out: List[Any] = []
+    for n in names:
+        a = MNode("Assignment", left=MNode("VarID", value=n), op=":=", right=MNode("Constant", value=1))
+        # the AST constructor always wraps a calc item in UnaryOp(op=<role token>) (explicit role or implicit "measure")
+        out.append(MNode("UnaryOp", op=role_token, operand=a) if role_token is not None else a)
+    return out
+
+
+def clause_visitor(M: Model, op: str, ds: MDS, names: List[str], renames: Optional[List[Tuple[str, str]]] = None, role_token: Optional[str] = None) -> Tuple[str, Any]:
     f = M.P.func(f"{SV}.{CLAUSE_BUILDERS[op]}")
     if op == "rename":
         children = [MNode("RenameNode", old_name=a, new_name=b) for a, b in renames or []]
     elif op == "sub":
         children = [MNode("BinOp", left=MNode("VarID", value=n), op="=", right=MNode("Constant", value=1)) for n in names]
     elif op == "calc":
-        children = [MNode("Assignment", left=MNode("VarID", value=n), op=":=", right=MNode("Constant", value=1)) for n in names]
+        children = _calc_children(names, role_token)
     else:
         children = [MNode("VarID", value=n) for n in names]
     node = MNode("RegularAggregation", op=op, children=children, dataset="SRC")
@@ -200,14 +209,14 @@ def clause_visitor(M: Model, op: str, ds: MDS, names: List[str], renames: Option
     return "ok", res
 
 
-def clause_interpreter(M: Model, op: str, ds: MDS, names: List[str], renames: Optional[List[Tuple[str, str]]] = None) -> Tuple[str, Any]:
+def clause_interpreter(M: Model, op: str, ds: MDS, names: List[str], renames: Optional[List[Tuple[str, str]]] = None, role: str = "MEASURE") -> Tuple[str, Any]:
     f = M.P.func(f"{CLAUSE_VALIDATORS[op]}.validate")
     if op == "rename":
         operands: List[Any] = [MNode("RenameNode", old_name=a, new_name=b) for a, b in renames or []]
     elif op == "sub":
         operands = [MComp(n, ds.components[n].role if n in ds.components else M.roles["MEASURE"]) for n in names]
     elif op == "calc":
-        operands = [MComp(n, M.roles["MEASURE"], M.number) for n in names]
+        operands = [MComp(n, M.roles[role], M.number, nullable=role != "IDENTIFIER") for n in names]
     else:
         operands = list(names)
     ext: Dict[str, Callable[..., Any]] = {
@@ -239,6 +248,9 @@ class MBuilder:
         self.table = ""
         self.wheres: List[str] = []
         self.star = False
+        self.sub: Any = None
+        self.joins: List[Dict[str, Any]] = []
+        self.alias = ""
 
     def select(self, *cols: str) -> "MBuilder":
         self.cols.extend(cols)
@@ -250,6 +262,20 @@ class MBuilder:
 
     def from_table(self, table: str, alias: str = "") -> "MBuilder":
         self.table = table
+        self.alias = alias
+        return self
+
+    def from_subquery(self, sub: Any, alias: str = "t") -> "MBuilder":
+        self.sub = sub  # an MBuilder (build() returns the builder itself) or SQL text
+        self.table = "(subquery)"
+        return self
+
+    def join(self, table: str, alias: str, on: str = "", using: Any = None, join_type: str = "INNER") -> "MBuilder":
+        self.joins.append({"table": table, "alias": alias, "on": on, "using": using, "type": join_type})
+        return self
+
+    def cross_join(self, table: str, alias: str) -> "MBuilder":
+        self.joins.append({"table": table, "alias": alias, "on": None, "using": None, "type": "CROSS"})
         return self
 
     def where(self, cond: str) -> "MBuilder":
@@ -264,9 +290,16 @@ def sql_columns(b: MBuilder, source_cols: List[str]) -> List[str]:
     """column names the recorded SELECT delivers, given the source's columns"""
     import re as _re
     out: List[str] = []
+    if isinstance(b.sub, MBuilder):
+        source_cols = sql_columns(b.sub, source_cols)
+    elif b.sub is not None:
+        raise Unmodelled(f"SELECT over a textual subquery ({str(b.sub)[:40]}): columns unknown")
     if b.star and not b.cols:
         return list(source_cols)
     for c in b.cols:
+        if c.strip() == "*" or _re.fullmatch(r'\* REPLACE \((.*)\)', c.strip(), _re.S):
+            out.extend(source_cols)
+            continue
         m = _re.fullmatch(r'\* EXCLUDE \((.*)\)', c.strip())
         if m:
             ex = {x.strip().strip('"') for x in m.group(1).split(",")}
@@ -293,7 +326,7 @@ class MTranspiler(MSelf):
         self._column_prefix = None
 
 
-def clause_sql(M: Model, op: str, ds: MDS, names: List[str], renames: Optional[List[Tuple[str, str]]] = None) -> Tuple[str, Any]:
+def clause_sql(M: Model, op: str, ds: MDS, names: List[str], renames: Optional[List[Tuple[str, str]]] = None, role_token: Optional[str] = None) -> Tuple[str, Any]:
     f = M.P.func(f"{TRQ}.{SQL_HANDLERS[op]}")
     if op == "rename":
         children: List[Any] = [MNode("RenameNode", old_name=a, new_name=b) for a, b in renames or []]
@@ -302,7 +335,7 @@ def clause_sql(M: Model, op: str, ds: MDS, names: List[str], renames: Optional[L
     elif op == "filter":
         children = [MNode("VarID", value="COND")]
     elif op == "calc":
-        children = [MNode("Assignment", left=MNode("VarID", value=n), op=":=", right=MNode("Constant", value=1)) for n in names]
+        children = _calc_children(names, role_token)
     else:
         children = [MNode("VarID", value=n) for n in names]
     node = MNode("RegularAggregation", op=op, children=children, dataset="SRC")
@@ -328,4 +361,88 @@ def clause_sql(M: Model, op: str, ds: MDS, names: List[str], renames: Optional[L
         res = it.call(f, {"self": me, "node": node})
     except Raised as r:
         return "raise", getattr(r.exc, "code", None)
+    return "ok", res
+
+
+def expression_scopes(b: MBuilder) -> List[Tuple[str, List[str]]]:
+    """(select item containing a translated expression ⟦…⟧, names already RE-DEFINED by an inner level of the same generated
+    query at the point where that item is evaluated).  VTL evaluates every expression of a clause on the clause's INPUT
+    dataset; an expression placed above a level that replaced a column reads the new value instead."""
+    import re as _re
+    levels: List[MBuilder] = []
+    cur: Any = b
+    while isinstance(cur, MBuilder):
+        levels.append(cur)
+        cur = cur.sub
+    levels.reverse()  # innermost first
+    redefined: List[str] = []
+    out: List[Tuple[str, List[str]]] = []
+    for lv in levels:
+        here: List[str] = []
+        for c in lv.cols:
+            m = _re.fullmatch(r'\* REPLACE \((.*)\)', c.strip(), _re.S)
+            items = [x.strip() for x in _split_top(m.group(1))] if m else [c]
+            for it in items:
+                if "⟦" in it:
+                    out.append((it, list(redefined)))
+                    mm = _re.search(r'\bAS\s+"([^"]+)"\s*$', it)
+                    if mm:
+                        here.append(mm.group(1))
+        redefined.extend(here)
+    return out
+
+
+def _split_top(text: str) -> List[str]:
+    out, depth, cur = [], 0, ""
+    for ch in text:
+        if ch in "(⟦":
+            depth += 1
+        elif ch in ")⟧":
+            depth -= 1
+        if ch == "," and depth == 0:
+            out.append(cur)
+            cur = ""
+        else:
+            cur += ch
+    if cur.strip():
+        out.append(cur)
+    return out
+
+
+# ---------------------------------------------------------------------------------------------------------------
+# joins: SQLTranspiler.visit_JoinOp evaluated on abstract operand structures
+def join_sql(M: Model, op: str, operands: List[Tuple[str, MDS, Optional[str]]], using: Optional[List[str]] = None) -> Tuple[str, Any]:
+    """operands: (dataset name, structure, alias or None).  Returns ("ok", MBuilder) with .cols / .joins recorded."""
+    f = M.P.func(f"{TRQ}.visit_JoinOp")
+    by_name = {n: d for n, d, _a in operands}
+    clauses: List[Any] = []
+    for n, _d, a in operands:
+        v = MNode("VarID", value=n)
+        clauses.append(MNode("BinOp", left=v, op="as", right=MNode("Identifier", value=a)) if a else v)
+    node = MNode("JoinOp", op=op, clauses=clauses, using=using, nvl=None, isLast=True)
+    me = MTranspiler()
+
+    def counter(it: Any) -> Dict[Any, int]:
+        out: Dict[Any, int] = {}
+        for x in it:
+            out[x] = out.get(x, 0) + 1
+        return out
+    ext: Dict[str, Callable[..., Any]] = {
+        "self._get_dataset_structure": lambda n: by_name[n.value],
+        "self._get_dataset_sql": lambda n: f'"{n.value}"',
+        "self._get_node_value": lambda x: getattr(x, "value", x),
+        "self._resolve_join_nvl_defaults": lambda *a: {},
+        "self._build_join_viral_cols": lambda *a: [],
+        "merged_viral_attribute_names": lambda *a: set(),
+        "get_current_registry": lambda: None,
+        "quote_name": lambda n: f'"{n}"',
+        "isinstance": _isinstance,
+        "SQLBuilder": MBuilder,
+        "Counter": counter,
+    }
+    it = Interp(M.P, externals=ext, max_steps=200000)
+    try:
+        res = it.call(f, {"self": me, "node": node})
+    except Raised as r:
+        return "raise", getattr(r.exc, "code", None) or getattr(r.exc, "kind", None)
     return "ok", res
